@@ -213,6 +213,11 @@ def discharge(obligations, t_z3_ms=20000, t_cvc5_s=30, procs=None, nosplit=False
                 a["backend"] = "z3+cvc5"
             elif backend == "z3&cvc5":
                 a["confirmed_by_cvc5"] = a.get("confirmed_by_cvc5", 0) + 1
+        elif r == "sat" and getattr(ob, "overapprox", None):
+            # the path used an over-approximation of the program (e.g. unconstrained comprehension elements): a counter-model may be spurious -> undecided
+            if a["status"] == "discharged":
+                a["status"] = "undecided"
+                a["reason"] = "counter-model only under an over-approximation (%s): not a refutation" % "; ".join(ob.overapprox)[:200]
         elif r == "sat":
             if a["status"] != "failed":
                 a["status"] = "failed"
